@@ -97,13 +97,13 @@ define REPO_RULE_C
 $(call objname,$(1)): $(REPO)/$(1) sim/seams/$(subst /,__,$(basename $(1))).txt sim/seams/_common.txt
 	@mkdir -p $$(dir $$@)
 	@echo "  CC  $(1)"; $(CC) $(RCFLAGS) -MMD -MP -MT $$@ -MF $$(basename $$@).d -c $$< -o $$@.tmp.o
-	@cat sim/seams/_common.txt sim/seams/$(subst /,__,$(basename $(1))).txt > $$@.syms; objcopy --redefine-syms=$$@.syms $$@.tmp.o $$@; rm -f $$@.tmp.o $$@.syms
+	@cat sim/seams/_common.txt sim/seams/$(subst /,__,$(basename $(1))).txt > $$@.syms && objcopy --redefine-syms=$$@.syms $$@.tmp.o $$@.new.o && mv -f $$@.new.o $$@ && rm -f $$@.tmp.o $$@.syms
 endef
 define REPO_RULE_CXX
 $(call objname,$(1)): $(REPO)/$(1) sim/seams/$(subst /,__,$(basename $(1))).txt sim/seams/_common.txt
 	@mkdir -p $$(dir $$@)
 	@echo "  CXX $(1)"; $(CXX) $(RCXXFLAGS) -MMD -MP -MT $$@ -MF $$(basename $$@).d -c $$< -o $$@.tmp.o
-	@cat sim/seams/_common.txt sim/seams/$(subst /,__,$(basename $(1))).txt > $$@.syms; objcopy --redefine-syms=$$@.syms $$@.tmp.o $$@; rm -f $$@.tmp.o $$@.syms
+	@cat sim/seams/_common.txt sim/seams/$(subst /,__,$(basename $(1))).txt > $$@.syms && objcopy --redefine-syms=$$@.syms $$@.tmp.o $$@.new.o && mv -f $$@.new.o $$@ && rm -f $$@.tmp.o $$@.syms
 endef
 $(foreach s,$(REPO_C),$(eval $(call REPO_RULE_C,$(s))))
 $(foreach s,$(REPO_CXX),$(eval $(call REPO_RULE_CXX,$(s))))
